@@ -68,6 +68,21 @@ func c16table(variant int) []struct{ letter, name string } {
 		return out
 	case 2:
 		return append([]struct{ letter, name string }{{"Z", "Zymo Research (1/22)"}}, c16suppliers[:6]...)
+	case 3: // neither ascending nor descending: even positions first, then odd ones
+		var out []struct{ letter, name string }
+		for i := 0; i < len(c16suppliers); i += 2 {
+			out = append(out, c16suppliers[i])
+		}
+		for i := 1; i < len(c16suppliers); i += 2 {
+			out = append(out, c16suppliers[i])
+		}
+		return out
+	case 4: // several letters name one and the same supplier (a company listed under its old and new codes)
+		out := make([]struct{ letter, name string }, len(c16suppliers))
+		for i, s := range c16suppliers {
+			out[i] = struct{ letter, name string }{s.letter, c16suppliers[i/3*3].name}
+		}
+		return out
 	}
 	return c16suppliers
 }
@@ -341,6 +356,51 @@ func c16units(tier string) []mc.Unit {
 		r.AddStates(2)
 		r.AddTransitions(2)
 		r.AddNontrivial(2)
+	}})
+	// supplier tables in other orders and with repeated names x supplier strings of every length
+	us = append(us, mc.Unit{Name: "supplier-tables", Weight: 20, Run: func(r *mc.Recorder) {
+		var cnt int64
+		for tv := 0; tv <= 4; tv++ {
+			tab := c16table(tv)
+			var letters string
+			for _, t := range tab {
+				letters += t.letter
+			}
+			var supps []string
+			for i := 0; i < len(letters); i++ {
+				supps = append(supps, letters[i:i+1], letters[:i+1], letters[i:])
+				if i+3 <= len(letters) {
+					supps = append(supps, letters[i:i+3], string([]byte{letters[i+2], letters[i+1], letters[i]}))
+				}
+			}
+			for _, tabs := range []bool{false, true} {
+				var recs []c16rec
+				for i, sp := range supps {
+					rc := c16rec0(i % 3)
+					rc.name = fmt.Sprintf("Sup%dI", i)
+					rc.supp = sp
+					recs = append(recs, rc)
+				}
+				l := c16layout{table: tv, header: 1, tabs: tabs, blank: true, finalNL: true}
+				var got map[string]rebase.Enzyme
+				cas := fmt.Sprintf("supplier table variant %d, tabs=%v, %d records", tv, tabs, len(recs))
+				tags := []string{"has-suppliers", "first-table-letter", "supplier-table"}
+				if !tabs {
+					tags = append(tags, "indent=spaces")
+				}
+				cnt++
+				if p := catch(func() { got = rebase.Parse(c16write(recs, l)) }); p != "" {
+					r.Failf("no-panic", cas, tags, "a map", "panic: "+p)
+					continue
+				}
+				c16check(r, cas, tags, recs, got, tv)
+			}
+		}
+		r.Eval(cnt)
+		r.AddStates(cnt)
+		r.AddTransitions(cnt)
+		r.AddNontrivial(cnt)
+		r.Bound("supplier-tables", "5 supplier tables (file order ascending, descending, interleaved, with an extra first letter, with repeated names) x supplier strings of every prefix, suffix, single letter, 3-letter window and reversed window")
 	}})
 	// header prose: every sequence of one, two and three lines from a dictionary of prose lines (look-alikes of the
 	// supplier-table title and of supplier rows, bare angle brackets, very short and very long
